@@ -269,18 +269,14 @@ def realise(co, cs, nc_abs, rep, rnd, nprng, mode, want_at=False):
     return data, maxv, co_real, cs_real, ca_real
 
 
+_CLS = np.array(["P", "Z", "O", "X"])
+
+
 def classify(mute):
-    out = []
-    for v in np.asarray(mute, dtype=float):
-        if not np.isfinite(v) or v < -TOL or v > 1 + TOL:
-            out.append("X")
-        elif abs(v) <= TOL:
-            out.append("Z")
-        elif abs(v - 1) <= TOL:
-            out.append("O")
-        else:
-            out.append("P")
-    return out
+    v = np.asarray(mute, dtype=float)
+    with np.errstate(invalid="ignore"):
+        code = np.where(~np.isfinite(v) | (v < -TOL) | (v > 1 + TOL), 3, np.where(np.abs(v) <= TOL, 1, np.where(np.abs(v - 1) <= TOL, 2, 0)))
+    return _CLS[code].tolist()
 
 
 def call(data, maxv, mode, a, b, M):
@@ -327,8 +323,10 @@ def observe(sat, mute):
     sat, mute = np.asarray(sat), np.asarray(mute, dtype=float)
     if sat.dtype != bool:
         sat = sat != 0
-    return ([bool(v) for v in sat.ravel()], classify(mute.ravel()),
-            [int(round(float(np.clip(v, -1, 2)) * 1e6)) if np.isfinite(v) else -999 for v in mute.ravel()])
+    m = mute.ravel()
+    fin = np.isfinite(m)
+    q = np.where(fin, np.rint(np.clip(np.where(fin, m, 0.0), -1, 2) * 1e6), -999).astype(np.int64)
+    return [bool(v) for v in sat.ravel()], classify(m), q.tolist()
 
 
 def record(co, cs, nc_abs, a, b, M, rnd, nprng, reps, want_at=False, extra=None, modes=None):
@@ -418,6 +416,11 @@ def vkey(rec, clause):
     if clause == "ZeroOnFlag":
         return f"sat:ZeroOnFlag:{'even' if rec['M'] % 2 == 0 else 'odd'}-width"
     return f"sat:{clause}"
+
+
+def slim(rec):
+    """what the trace spec reads (the scenario description stays on this side)"""
+    return {k: v for k, v in rec.items() if k not in ("abs", "mode", "exp", "range_ok", "range_obs", "range_exp")}
 
 
 def which(rec, clause):
@@ -622,8 +625,8 @@ def run(ctx):
             ctx.violation("sat:RangeVolts", f"Reader.range_volts of {r['abs']['file']} is {r['range_obs']}.., full scale is "
                           f"{r['range_exp']}..", {"kind": "reader", "rec": strip(r)})
     allr = recs + extra + rdr
-    verd = tracecheck.validate(ctx, "trace/SaturationTrace.tla", "trace/SaturationTrace.cfg", allr, label="sat", jvms=4, workers=2,
-                               nstates=lambda t: 3, timeout=1800)
+    verd = tracecheck.validate(ctx, "trace/SaturationTrace.tla", "trace/SaturationTrace.cfg", [slim(r) for r in allr], label="sat",
+                               jvms=4, workers=2, nstates=lambda t: 3, timeout=1800)
     ndrift = 0
     for v in verd:
         r = allr[v["index"]]
